@@ -203,6 +203,12 @@ func RouteBuilder(ws *restful.WebService, s Service, r RouteDecl) *restful.Route
 	return configure(ws.Method(r.Method), s, r, false)
 }
 
+// Reconfigure says declaration r on a builder that has built a route before (everything a declaration
+// can say is set anew; r.Conds are the conditions to ADD to the ones b carries; To is the caller's).
+func Reconfigure(b *restful.RouteBuilder, s Service, r RouteDecl) *restful.RouteBuilder {
+	return configure(b, s, r, true)
+}
+
 // configure says declaration r on builder b. again: b has built a route before, so what r leaves
 // unsaid is set to "nothing said" explicitly (r.Conds are then the conditions to add to the ones b has).
 func configure(b *restful.RouteBuilder, s Service, r RouteDecl, again bool) *restful.RouteBuilder {
